@@ -48,7 +48,7 @@ def time_limit(seconds=3.0):
         signal.signal(signal.SIGALRM, old)
 
 
-def sprinkle_queries(w, limit=40):
+def sprinkle_queries(w, limit=24):
     try:
         with time_limit(5.0):
             _sprinkle_queries(w, limit)
@@ -56,7 +56,7 @@ def sprinkle_queries(w, limit=40):
         pass
 
 
-def _sprinkle_queries(w, limit=40):
+def _sprinkle_queries(w, limit=24):
     """Read-only queries on every tree BETWEEN the mutations of a history (answers are not judged here): whatever
     the library caches or memoises is filled by queries, so a mutator that forgets to reset it only shows when the
     same tree object was queried before.  depth / calc_depth / calc_height / is_descendant_of / is_ancestor_of /
@@ -84,7 +84,7 @@ def _sprinkle_queries(w, limit=40):
                 except Exception:
                     pass
             for f in (lambda: t.format(), lambda: t.calc_height(), lambda: len(t), lambda: list(t), lambda: t.to_dict_list(),
-                      lambda: t.count_unique, lambda: t.first_child(), lambda: t.last_child(), lambda: t.format(repr="{node.data}")):
+                      lambda: t.count_unique, lambda: t.first_child(), lambda: t.last_child()):
                 try:
                     f()
                 except Exception:
